@@ -1107,6 +1107,32 @@ class FuncAnalysis:
             tv = ret
             self.sink(f.node, "S4:return-of-ordered-public-accessor", tv, f"return value of {f.qualname}")
 
+    COMMUTATIVE_CALLS = {"max", "min", "sum", "len", "set", "frozenset", "any", "all", "sorted"}
+
+    def noncommutative_fold(self, st: ast.Assign):
+        """S8: `acc = f(... acc ...)` once per element of a collection without canonical order, where f is not one of the
+        known order-insensitive combinations (+ * | & ^, max / min, set methods): the final value depends on the visiting
+        order (nested conditionals, nested calls, first-wins merges)."""
+        lt = [t for t in self.cur_loop_taint() if t.kind in (HASH, TEXT)]
+        if not lt or len(st.targets) != 1 or not isinstance(st.targets[0], ast.Name):
+            return
+        acc = st.targets[0].id
+        cur = self.env.get(acc, UNKNOWN)
+        if cur.kind in ("set", "seq", "dict", "str", "int", "float", "sorter"):
+            return  # typed accumulators have their own rules
+        for call in [n for n in ast.walk(st.value) if isinstance(n, ast.Call)]:
+            reads_acc = any(isinstance(n, ast.Name) and n.id == acc for a in list(call.args) + [k.value for k in call.keywords] for n in ast.walk(a))
+            if not reads_acc:
+                continue
+            fn = call.func
+            if isinstance(fn, ast.Name) and fn.id in self.COMMUTATIVE_CALLS:
+                continue
+            if isinstance(fn, ast.Attribute) and any(isinstance(n, ast.Name) and n.id == acc for n in ast.walk(fn.value)):
+                continue  # a method of the accumulator itself (union, add, subs of its own kind ...): typed rules decide those
+            d = dotted(fn) or norm(fn)
+            self.sink(st, "S8:value-folded-step-by-step-over-an-unordered-collection", T("seq", order=frozenset(lt)), f"`{acc} = {d}(... {acc} ...)` once per element of a collection without canonical order: the nesting of the result follows the visiting order")
+            return
+
     def self_guarded_accumulation(self, node, acc: str):
         """S7: a set filled in a loop without canonical order, where a condition in that loop reads the set itself."""
         if not (self.cur_loop_taint() and any(t.kind in (HASH, TEXT) for t in self.cur_loop_taint())):
@@ -1136,6 +1162,7 @@ class FuncAnalysis:
             return
         if isinstance(st, ast.Assign):
             t = self.type_of(st.value)
+            self.noncommutative_fold(st)
             for tgt in st.targets:
                 self.bind(tgt, t)
             return
